@@ -99,6 +99,10 @@ def letters(seed):
     sub_c_meas = cirq.CircuitOperation(cirq.FrozenCircuit(cirq.H(c), cirq.measure(c, key="s")))
     sub_mapped = cirq.CircuitOperation(cirq.FrozenCircuit(cirq.Y(b) ** 0.5, cirq.X(b))).with_tags(MAPPED_CIRCUIT_OP_TAG)
     k_sym = sympy.Symbol("k")
+    w_sym = sympy.Symbol("w")
+    # asymmetric confusion matrices (row = true value): the order "confuse, then invert" is observable
+    conf1 = np.array([[0.9, 0.1], [0.3, 0.7]])
+    conf2 = np.array([[0.7, 0.1, 0.1, 0.1], [0.0, 1.0, 0.0, 0.0], [0.25, 0.25, 0.25, 0.25], [0.1, 0.2, 0.3, 0.4]])
     raw = [
         # ---- single-qubit
         ("X(a)", cirq.X(a), 1), ("Y(a)", cirq.Y(a), 1), ("Z(a)", cirq.Z(a), 1), ("X(b)", cirq.X(b), 1), ("Z(b)", cirq.Z(b), 1),
@@ -124,6 +128,8 @@ def letters(seed):
         ("PM(X(a);p)", cirq.measure_single_paulistring(cirq.X(a), key="p"), 1),
         ("X(b)?m", cirq.X(b).with_classical_controls("m"), 1), ("Z(c)?k", cirq.Z(c).with_classical_controls("k"), 1),
         ("R(a)", cirq.ResetChannel().on(a), 1),
+        ("M(a;u,inv,conf)", cirq.measure(a, key="u", invert_mask=(True,), confusion_map={(0,): conf1}), 1),
+        ("X(c)?u", cirq.X(c).with_classical_controls("u"), 1),
         # ---- tagged
         ("X(a)[ignore]", cirq.X(a).with_tags(IGN), 1), ("H(b)[ignore]", cirq.H(b).with_tags(IGN), 1),
         ("CZ(a,b)[ignore]", cirq.CZ(a, b).with_tags(IGN), 1), ("Y(a)[nocompile]", cirq.Y(a).with_tags("nocompile"), 1),
@@ -150,6 +156,13 @@ def letters(seed):
         ("Y(c)", cirq.Y(c), 0), ("S(c)", cirq.S(c), 0), ("M(a,c;j)", cirq.measure(a, c, key="j"), 0),
         ("CZ(a,b)[ignore]2", cirq.CZ(a, b).with_tags(IGN, "x"), 0),
         ("CZ(a,b)^s", cirq.CZ(a, b) ** S_SYM, 0),
+        ("M(a,b;v,inv=01,conf(a))", cirq.measure(a, b, key="v", invert_mask=(False, True), confusion_map={(0,): conf1}), 0),
+        ("M(a,b;w,inv=10,conf(ab))", cirq.measure(a, b, key="w", invert_mask=(True,), confusion_map={(0, 1): conf2}), 0),
+        ("Z(c)?v", cirq.Z(c).with_classical_controls("v"), 0),
+        ("X(c)?(w>1)", cirq.X(c).with_classical_controls(sympy.Gt(w_sym, 1)), 0),
+        ("M(b;u)", cirq.measure(b, key="u"), 0),
+        ("Z(c)?m", cirq.Z(c).with_classical_controls("m"), 0),
+        ("H(c)", cirq.H(c), 0),
     ]
     out = []
     for name, item, full in raw:
@@ -587,6 +600,9 @@ R_CPHMM = ["CZ(a,b)^g", "CZ(b,c)^g3", "CZ(a,b)", "Z(a)^g", "X(b)", "Z(c)", "H(b)
 R_SPIN = ["ZZ(a,b)^g", "ZZ(b,c)", "H(a)", "rx(g)(c)", "CZ(a,b)[ignore]", "M(b;m)", "X(b)", "Moment()"]
 R_SYC = ["SYC(a,b)", "SYC(b,c)", "H(a)", "rx(g)(c)", "CZ(a,b)[ignore]", "M(b;m)", "X(b)"]
 R_IDLE = ["X(a)", "H(b)", "Z(c)", "CZ(a,b)", "H(b)[ignore]", "M(a;m)", "R(a)", "X(a)^s", "Moment()"]
+R_CONF = ["H(a)", "X(b)", "CNOT(a,b)", "M(a;u,inv,conf)", "M(a,b;v,inv=01,conf(a))", "M(a,b;w,inv=10,conf(ab))", "X(c)?u", "Z(c)?v",
+          "X(c)?(w>1)", "M(b;u)"]
+R_SKEYS = ["M(a;m)", "X(b)?m", "Z(c)?m", "H(c)", "M(b;m)"]
 R_GOOG = ["SWAP(a,b)", "ZZ(a,b)^g", "ZZ(b,c)", "SWAP(b,c)", "H(a)", "CZ(a,b)", "rx(g)(c)", "X(a)[ignore]", "CZ(a,b)[ignore]",
           "M(b;m)", "X(b)?m", "SUB[H(a),CZ(a,b),Y(b)[ignore],Z(a)^g]"]
 
@@ -606,6 +622,15 @@ def make_configs():
     for cn, cat in cats.items():
         add(f"stratified_circuit[{cn}]", (lambda cat: lambda c_, ctx, ch: cirq.stratified_circuit(c_, context=ctx, categories=cat))(cat),
             "stratify", R_STRAT)
+    # measurements with invert mask + asymmetric confusion map followed by readers of their keys (passes that move measurements)
+    add("align_left[conf]", lambda c_, ctx, ch: cirq.align_left(c_, context=ctx), "align", R_CONF, full=False)
+    add("align_right[conf]", lambda c_, ctx, ch: cirq.align_right(c_, context=ctx), "align", R_CONF, full=False)
+    add("stratified_circuit[gates,conf]", lambda c_, ctx, ch: cirq.stratified_circuit(c_, context=ctx, categories=cats["gates"]), "stratify",
+        R_CONF, full=False)
+    # two operations controlled by one key in different classes, then a re-measurement (length 4 needed)
+    for cn, cat in (("b", [lambda op: b in op.qubits]), ("c,b", [lambda op: c in op.qubits, lambda op: b in op.qubits])):
+        add(f"stratified_circuit[keys:{cn}]", (lambda cat: lambda c_, ctx, ch: cirq.stratified_circuit(c_, context=ctx, categories=cat))(cat),
+            "stratify", R_SKEYS, full=False, rel_len=4)
     # ---- expand / eject
     add("expand_composite", lambda c_, ctx, ch: cirq.expand_composite(c_, context=ctx), "expand", R_EXPAND, consumable=ALL)
     add("expand_composite[keep CZ,H]", lambda c_, ctx, ch: cirq.expand_composite(
@@ -642,6 +667,10 @@ def make_configs():
         "merge_prim", R_M2, consumable=_unitary_upto(2))
     add("merge_operations_to_circuit_op[<=2q]", lambda c_, ctx, ch: cirq.merge_operations_to_circuit_op(c_, can_merge_2q, **prim(ctx)),
         "merge_prim", R_M2, consumable=ALL)
+    add("merge_operations[wrap,conf]", lambda c_, ctx, ch: cirq.merge_operations(c_, merge_wrap, **prim(ctx)), "merge_prim", R_CONF,
+        consumable=ALL, full=False)
+    add("merge_operations_to_circuit_op[<=2q,conf]", lambda c_, ctx, ch: cirq.merge_operations_to_circuit_op(c_, can_merge_2q, **prim(ctx)),
+        "merge_prim", R_CONF, consumable=ALL, full=False)
     # ---- map / unroll / tags
     add("map_operations[decomp]", lambda c_, ctx, ch: cirq.map_operations(c_, mf_decomp, **prim(ctx)), "map", R_MAP)
     add("map_operations_and_unroll[decomp]", lambda c_, ctx, ch: cirq.map_operations_and_unroll(c_, mf_decomp, **prim(ctx)), "map", R_MAP)
@@ -683,6 +712,16 @@ def make_configs():
         oracle="drop_terminal")
     add("lightcone_filter", lambda c_, ctx, ch: T.lightcone_filter(c_, context=ctx), "meas", R_MEAS2, oracle="lightcone", ign="none",
         consumable=ALL)
+    add("synchronize_terminal_measurements[conf]", lambda c_, ctx, ch: cirq.synchronize_terminal_measurements(c_, context=ctx), "meas",
+        R_CONF, full=False)
+    add("defer_measurements[conf]", lambda c_, ctx, ch: cirq.defer_measurements(c_, context=ctx), "defer", R_CONF, oracle="defer",
+        consumable=ALL, ign_skip_co=True, full=False)
+    add("dephase_measurements[conf]", lambda c_, ctx, ch: cirq.dephase_measurements(c_, context=ctx), "meas", R_CONF, oracle="dephase",
+        full=False)
+    add("drop_terminal_measurements[conf]", lambda c_, ctx, ch: cirq.drop_terminal_measurements(c_, context=ctx), "meas", R_CONF,
+        oracle="drop_terminal", full=False)
+    add("lightcone_filter[conf]", lambda c_, ctx, ch: T.lightcone_filter(c_, context=ctx), "meas", R_CONF, oracle="lightcone", ign="none",
+        consumable=ALL, full=False)
     # ---- dynamical decoupling, sorting
     dd = [("DEFAULT", True), ("XX_PAIR", False), ("Y_YINV", True), ((cirq.X, cirq.Y, cirq.Z), False)]
     for schema, sq in dd:
@@ -690,6 +729,8 @@ def make_configs():
             (lambda schema, sq: lambda c_, ctx, ch: cirq.add_dynamical_decoupling(c_, context=ctx, schema=schema, single_qubit_gate_moments_only=sq))(schema, sq),
             "dd", R_DD, deep=False, consumable=_unitary_upto(1))
     add("insertion_sort_transformer", lambda c_, ctx, ch: T.insertion_sort_transformer(c_, context=ctx), "sort", R_SORT, ign="multiset")
+    add("insertion_sort_transformer[conf]", lambda c_, ctx, ch: T.insertion_sort_transformer(c_, context=ctx), "sort", R_CONF, ign="multiset",
+        full=False)
     # ---- cirq_google
     add("cirq_google.merge_swap_rzz_and_2q_unitaries", lambda c_, ctx, ch: merge_swap_rzz_and_2q_unitaries(c_, context=ctx), "google", R_GOOG,
         consumable=_unitary_upto(2))
@@ -886,12 +927,23 @@ def o_drop_terminal(cfg, inp, deep, out, out_flat, sweep):
         for op in _dropped_measurements(inp, ri, deep):
             appended.append(cirq.measure(*op.qubits, key=op.gate.key))
         keep = [i for i, q in enumerate(QS) if q not in measured]
-        d_in = _reduced(inp.meaning(ri).dist(_PSI), keep)
+        m_in = inp.meaning(ri)
+        if any(isinstance(op.gate, cirq.MeasurementGate) and op.gate.confusion_map for op in in_ops):
+            # the documented replacement (identity / X per invert mask) reproduces the un-confused inverted bits
+            m_in = Meaning([_without_confusion(op) for op in in_ops], QS)
+        d_in = _reduced(m_in.dist(_PSI), keep)
         d_out = _reduced(Meaning(list(ops) + appended, QS).dist(_PSI), keep)
         msg = interp.compare_dists(d_in, d_out, atol=1e-7, states=True)
         if msg:
             return "reading out the returned circuit in the computational basis does not reproduce the input's measurement statistics: " + msg
     return None
+
+
+def _without_confusion(op):
+    g = op.gate
+    if isinstance(g, cirq.MeasurementGate) and g.confusion_map and IGN not in op.tags:
+        return cirq.measure(*op.qubits, key=g.mkey, invert_mask=g.invert_mask).with_tags(*op.tags)
+    return op
 
 
 def _dropped_measurements(inp, ri, deep):
